@@ -104,6 +104,7 @@ REG.add(Contract(
     ensures=[
         "forall(Node, Node, lambda n, c: (dep_of(n, c) in result) == (desc(graph, fid(dependent), n) and imp(graph, n, c) and desc(graph, fid(dependent_upon), c) and (not in_P2(dependent, dependent_upon, n)) and (not in_P2(dependent, dependent_upon, c))))",
         "forall(Dep, lambda d: implies(d in result, plain_dep(d)))",
+        "forall(Dep, lambda d: (d in result) == deps_rel_d(graph, dependent, dependent_upon, d))",
     ],
     locals=dict(nodes_to_check="Bag[Node]", checked_nodes="Set[Node]", dependencies="Bag[Dep]", nodes_to_exclude="Bag[Node]"),
     loops={
@@ -137,6 +138,7 @@ REG.add(Contract(
     ensures=[
         "forall(Node, Node, lambda n, c: (dep_of(n, c) in result) == (desc(graph, fid(dependent), n) and (not E_other(graph, dependent, dependent_upons, n)) and imp(graph, n, c) and (not E_other(graph, dependent, dependent_upons, c)) and not desc(graph, fid(dependent), c)))",
         "forall(Dep, lambda d: implies(d in result, plain_dep(d)))",
+        "forall(Dep, lambda d: (d in result) == other_rel_d(graph, dependent, dependent_upons, d))",
     ],
     locals=dict(nodes_to_exclude="Set[Node]", nodes_fulfilling_criteria="Bag[Dep]", nodes_to_check="Bag[Node]",
                 checked_nodes="Set[Node]"),
@@ -179,6 +181,7 @@ REG.add(Contract(
         # property C03: every reported pair has its importee inside the dependent-upon module's own set
         "forall(Node, Node, lambda p, n: (dep_of(p, n) in result) == (N_rev(graph, dependent_upon, n) and imp(graph, p, n) and (not E_rev(graph, dependents, dependent_upon, p)) and not N_rev(graph, dependent_upon, p)))",
         "forall(Dep, lambda d: implies(d in result, plain_dep(d)))",
+        "forall(Dep, lambda d: (d in result) == other_rev_rel_d(graph, dependents, dependent_upon, d))",
     ],
     locals=dict(nodes_to_exclude="Set[Node]", nodes_fulfilling_criteria="Bag[Dep]", nodes_to_check="Bag[Node]",
                 checked_nodes="Set[Node]"),
@@ -205,3 +208,14 @@ REG.add(Contract(
         ]),
     },
     properties=["C01", "C03", "C12", "C13", "C14", "C15"]))
+
+# the three searches as relations over result elements d = (Module(importer), Module(importee))
+REG.macro("deps_rel", ["g", "s", "o", "n", "c"],
+          "desc(g, fid(s), n) and imp(g, n, c) and desc(g, fid(o), c) and (not in_P2(s, o, n)) and (not in_P2(s, o, c))")
+REG.macro("other_rel", ["g", "s", "O", "n", "c"],
+          "desc(g, fid(s), n) and (not E_other(g, s, O, n)) and imp(g, n, c) and (not E_other(g, s, O, c)) and not desc(g, fid(s), c)")
+REG.macro("other_rev_rel", ["g", "S", "o", "p", "n"],
+          "N_rev(g, o, n) and imp(g, p, n) and (not E_rev(g, S, o, p)) and not N_rev(g, o, p)")
+REG.macro("deps_rel_d", ["g", "s", "o", "d"], "plain_dep(d) and deps_rel(g, s, o, mid(d[0]), mid(d[1]))")
+REG.macro("other_rel_d", ["g", "s", "O", "d"], "plain_dep(d) and other_rel(g, s, O, mid(d[0]), mid(d[1]))")
+REG.macro("other_rev_rel_d", ["g", "S", "o", "d"], "plain_dep(d) and other_rev_rel(g, S, o, mid(d[0]), mid(d[1]))")
